@@ -712,6 +712,11 @@ func listenerCheck(an *Analysis, prop string, relax func(e *model.Expect, data [
 			if nconn != 1 {
 				v("on-connected", fmt.Sprintf("OnConnected fired %d times", nconn))
 			}
+			// "stops when signalled": with no callback of the application running, the listener has nothing to wait for -
+			// a second of simulated time is far beyond any slack (the unchanged listener returns at the very instant)
+			if stop != nil && len(st.Holds) == 0 && end.T > stop.T+time.Second {
+				v("slow-stop", fmt.Sprintf("Listen returned %v after the stop signal", end.T-stop.T))
+			}
 			// while listening, whatever reaches the socket is received: unless a callback holds the dispatcher up,
 			// every datagram that arrived strictly before the stop signal has been read
 			if stop != nil && len(st.Holds) == 0 {
